@@ -21,7 +21,7 @@ def valid(cfg):
     iub, oub = ublocks(cfg)
     return (min(cfg["od"], cfg["kh"], cfg["kw"], cfg["id"]) >= 1 and cfg["trav"] in ("depth", "part", "dw")
             and cfg["bits"] in (8, 16) and cfg["dily"] in (1, 2) and cfg["dilx"] in (1, 2) and cfg["oblk"] >= 1
-            and cfg["oblk"] % oub == 0 and (cfg["trav"] != "dw" or cfg["id"] == 1))
+            and (cfg["oblk"] % oub == 0 or cfg["od"] <= cfg["oblk"]) and (cfg["trav"] != "dw" or cfg["id"] == 1))
 
 
 def order_offsets(cfg):
